@@ -1316,8 +1316,6 @@ fn main() {
     if !want("parse") {
         confs.clear();
     }
-    cx.run_cases("parse", &confs, conformance);
-
     // ---- libraries of 2..5 automata in one chip (the shipped library has one member)
     {
         let w = |s: &str| RefExpr::Word(s.as_bytes().to_vec());
@@ -1349,8 +1347,13 @@ fn main() {
             add(&[0, 6, 1, 6]);
             add(&[3, 3, 4, 4]);
         }
+        // (before the long parse group, with a wall share of its own)
+        cx.next_group_share(if tier.is_thorough() { 240.0 } else { 10.0 });
         cx.run_cases("library", &libs, library_case);
     }
+
+    cx.run_cases("parse", &confs, conformance);
+
 
     // the shipped Jwt automaton in-circuit: the repository's two accepted documents are too long for
     // the 0..40 window; the minimal one and its corruptions are used in thorough only
